@@ -15,7 +15,7 @@ import base64
 import json
 import random
 
-from .. import endpoint, gen, tlc
+from .. import endpoint, gen, tlc, lifecycle
 from ..common import rmtree, scratch, seed
 
 WIRE = {"str": "tok", "int": "7", "float": "1.5", "bool": "true", "enum": "a", "date": "2020-01-02", "uuid": "12345678-1234-5678-1234-567812345678"}
@@ -201,6 +201,7 @@ def run(rep) -> None:
                     rep.violate(f"C03/sync-async-differ/body={c['op']['body']}", "the blocking and asyncio variants sent different requests", op=c["op"], a=seen[key][1], b=norm)
                 seen.setdefault(key, (c["variant"], norm))
         families(rep, d)
+        lifecycle.run(rep, d, quick, seed())
         (d / "obs.ndjson").write_text("\n".join(json.dumps(e) for e in trace) + "\n")
         tres = tlc.run_tlc("EndpointTrace.tla", "EndpointTrace.cfg", workers=1, env={"TRACE_FILE": str(d / "obs.ndjson")}, timeout=1800)
         rep.tlc(tres)
